@@ -45,11 +45,11 @@ fn py_is_sha(sha: &Py<PyAny>, py: Python) -> PyResult<bool> {
 #[pyfunction]
 fn bisect_find_sha(
     py: Python,
-    start: i32,
-    end: i32,
+    start: i64,
+    end: i64,
     sha: Py<PyBytes>,
     unpack_name: Py<PyAny>,
-) -> PyResult<Option<i32>> {
+) -> PyResult<Option<i64>> {
     // Convert sha_obj to a byte slice
     let sha = sha.as_bytes(py);
     let sha_len = sha.len();
